@@ -25,7 +25,8 @@ EXPLANATION = (
     "under `not comp.isdst` followed immediately by break). C17.COMP: utcoffset = TZOFFSETTO, dst = TO - FROM for "
     "DAYLIGHT components else zero, abbreviation = TZNAME; recurrence lines go through rrulestr(compatible, ignoretz, "
     "cache). C17.GET: get() without a name raises ValueError unless exactly one zone is defined. C17.TERM: the line "
-    "unfolding loop advances.")
+    "unfolding loop advances. C17.EXC: the exception-escape analysis from tzical(...) finds only ValueError subclasses, "
+    "OSError (opening the file) or OverflowError escaping; get() raises only ValueError.")
 ASSUMPTIONS = ["rrule.before and rrulestr behave as in C12/C13", "agreement with tzrange/tzstr at every instant is NOT decided"]
 
 
@@ -206,6 +207,16 @@ def run(ctx):
            and conds == ["len(self._vtz) == 0", "len(self._vtz) > 1"] and all(("tzid is None", True) in gf.at(r) for r in rs), construct="get() guards", detail=str(conds))
     pick = [n for n in gcfg.live_nodes() if n.kind == "stmt" and src(n.ast) == "tzid = next(iter(self._vtz))"]
     ctx.ob("C17.GET", gt, "the single zone is returned without naming it", len(pick) == 1 and "return self._vtz.get(tzid)" in src(gt.node), construct="single zone")
+
+    # ---------------------------------------------------------------- C17.EXC
+    from ..exc import check_escape
+    from .c14 import SUPPRESS as PARSER_SUPPRESS, USER as PARSER_USER
+    ti = prog.method(tzical.qualname, "__init__", "C17.EXC")
+    check_escape(ctx, "C17.EXC", ti, ("ValueError", "OSError", "OverflowError"), seeds={(ti.qualname, "fileobj"): ["str", "unknown"]},
+                 suppress=PARSER_SUPPRESS, user=set(PARSER_USER), explicit_ok={("dateutil.parser._parser.parser._build_tzinfo", "TypeError")},
+                 min_functions=60, label="tzical()")
+    sup = {(gt.qualname, "next(iter(self._vtz))"): "CHECKED by C17.GET: reached only when len(self._vtz) is neither 0 nor > 1, i.e. exactly one zone"}
+    check_escape(ctx, "C17.EXC", gt, ("ValueError",), suppress=sup, label="tzical.get()")
 
     # ---------------------------------------------------------------- C17.TERM
     whiles = [n for n in cfg.live_nodes() if n.kind == "branch" and isinstance(n.loop, ast.While)]
